@@ -41,7 +41,7 @@ def gen_cases(tier, seed):
         for i in range(1 if q else 12):
             yield "last_word_sweep", {"len": ln, "salt": rng.getrandbits(40)}
     for i in range(60 if q else 1500):
-        yield "word_mutations", {"len": rng.choice(r39.VALID_ENT), "salt": rng.getrandbits(40)}
+        yield "word_mutations", {"len": rng.choice(r39.VALID_ENT), "salt": rng.getrandbits(40), "cli": i % 3 == 0}
     for i in range(45 if q else 600):
         yield "cli", {"len": r39.VALID_ENT[i % 5], "salt": rng.getrandbits(40), "fmt": ["raw", "hex", "bin"][i % 3], "edge": [0x0A, 0x0D, 0x20, 0x00, 0x30, 0x78, 0x09, None][i % 8]}
     for i in range(10 if q else 100):
@@ -52,7 +52,7 @@ def gen_cases(tier, seed):
 
 def required(tier):
     return {"rt.decided": 700, "invalid_len.refused": 30, "sweep.words": 10000, "sweep.accepted": 200, "mut.decided": 1500,
-            "mut.class.non_list_word": 100, "mut.ref_accepts": 5, "seed.decided": 70, "seed.class.needs_nfkd": 20, "wordlist.pinned": 1, "cli.mnemonics": 35, "argtypes.calls": 15}
+            "mut.class.non_list_word": 100, "mut.class.case_variant": 200, "mut.cli_decided": 500, "mut.ref_accepts": 5, "seed.decided": 70, "seed.class.needs_nfkd": 20, "wordlist.pinned": 1, "cli.mnemonics": 35, "argtypes.calls": 15}
 
 
 def exhaustive(tier, counts):
@@ -179,6 +179,18 @@ def run_case(kind, params, ctx):
         for nshort in (1, 2, 3, 3, 6, 6, 9, 9, 10, 11, 13, 25, 27, 30):
             muts.append((f"wrong_count_{'multiple_of_3' if nshort % 3 == 0 else 'other'}", [rng.choice(W) for _ in range(nshort)]))
         muts.append(("repeat", base + base))
+        # the phrase's OWN words in another case / with look-alike characters: not list words, whatever a lenient reader thinks
+        i = rng.randrange(len(base))
+        muts.append(("case_variant", base[:i] + [base[i].capitalize()] + base[i + 1:]))
+        muts.append(("case_variant", base[:i] + [base[i].upper()] + base[i + 1:]))
+        muts.append(("case_variant", [w.upper() for w in base]))
+        muts.append(("case_variant", [w.capitalize() for w in base]))
+        ki = [j for j, w in enumerate(base) if "k" in w]
+        if ki:
+            muts.append(("unicode_lookalike", base[:ki[0]] + [base[ki[0]].replace("k", "\u212a")] + base[ki[0] + 1:]))
+        muts.append(("unicode_lookalike", base[:i] + [base[i] + "\u200b"] + base[i + 1:]))
+        muts.append(("unicode_lookalike", base[:i] + [base[i].replace("a", "\u0430", 1) if "a" in base[i] else base[i] + "\u0301"] + base[i + 1:]))
+        via_cli = params.get("cli", False)
         for cls, seq in muts:
             mn = " ".join(seq)
             r = r39.to_entropy(mn.split(), IDX)
@@ -194,6 +206,16 @@ def run_case(kind, params, ctx):
                 ctx.violation(f"to_entropy/accepts-invalid/{cls}", f"{mn!r} -> {got.hex()}")
             elif got is not None and got != r:
                 ctx.violation(f"to_entropy/wrong-entropy/{cls}", f"{mn!r} -> {got.hex()} != {r.hex()}")
+            if via_cli and cls not in ("empty",):
+                # the same verdict through `bits mnemonic --to-entropy` (stdin): the command line is an entry point of its own
+                from . import clihelp
+                rc = clihelp.run(["mnemonic", "--to-entropy", "-0x"], (mn + "\n").encode())
+                ctx.count("mut.cli_decided")
+                out = clihelp.parse_out(rc["out"], "hex") if rc["ok"] and rc["out"].strip() else None
+                if out is not None and r is None:
+                    ctx.violation(f"cli/to-entropy-accepts-invalid/{cls}", f"bits mnemonic --to-entropy accepted {mn!r} and printed {rc['out'][:70]!r}")
+                elif r is not None and out != r:
+                    ctx.violation(f"cli/to-entropy-{'rejects-valid' if out is None else 'wrong'}/{cls}", f"{mn!r}: printed {rc['out'][:70]!r} (ret {rc['ret']!r}), reference {r.hex()}")
         return
     if kind == "cli":
         from . import clihelp
